@@ -179,6 +179,15 @@ func c09Histories(t *testing.T) {
 				gen.Fail(t, gen.Violation{Key: "history:roundtrip-bytes", Oracle: "parse-then-serialise reproduces the quote byte for byte (whatever was parsed, and done to the results, before)", Detail: fmt.Sprintf("after %v: err=%v %s", hist, err, firstDiff(back, raw)), Replay: map[string]any{"kind": "parse", "raw_hex": gen.Hex(raw)}})
 				return nil
 			}
+			// the serialised bytes are the caller's too: overwritten, they change neither the message nor what a second
+			// serialisation returns
+			for i := range back {
+				back[i] ^= 0xff
+			}
+			if again, err := abi.QuoteToAbiBytes(q); err != nil || !bytes.Equal(again, raw) {
+				gen.Fail(t, gen.Violation{Key: "history:serialised-bytes-alias-the-message", Oracle: "parse-then-serialise reproduces the quote byte for byte (whatever was parsed, and done to the results, before)", Detail: fmt.Sprintf("after %v: the caller overwrote the bytes QuoteToAbiBytes returned; a second serialisation of the same message: err=%v %s", hist, err, firstDiff(again, raw)), Replay: map[string]any{"kind": "parse", "raw_hex": gen.Hex(raw)}})
+				return nil
+			}
 			return q
 		}
 		var held []*pb.QuoteV4
